@@ -17,6 +17,7 @@ import (
 	"google.golang.org/grpc/metadata"
 
 	"github.com/openconfig/gnmi/client"
+	fclient "github.com/openconfig/gnmi/client/fake"
 	gclient "github.com/openconfig/gnmi/client/gnmi"
 	gpb "github.com/openconfig/gnmi/proto/gnmi"
 	"github.com/openconfig/gnmi/zzverif/hutil"
@@ -91,6 +92,10 @@ func configsBase(tier string) []xplore.Config {
 			}
 			out = append(out, xplore.Config{Name: fmt.Sprintf("c: gnmi client decode type=%v responses=%v", qt, rs), Bound: 0, Data: cfgData{part: "c", resps: strings.Join(rs, ""), qtype: qt}})
 		}
+	}
+	// (d) the fake client implementation (client/fake) behind the real BaseClient
+	for _, us := range seqsOf([]string{"u1", "u2", "del", "err"}, 3) {
+		out = append(out, xplore.Config{Name: fmt.Sprintf("d: fake client implementation updates=%v", us), Bound: 0, Data: cfgData{part: "d", attempts: us}})
 	}
 	return out
 }
@@ -287,7 +292,8 @@ func (r *respStream) Recv() (*gpb.SubscribeResponse, error) {
 	case 'u':
 		return &gpb.SubscribeResponse{Response: &gpb.SubscribeResponse_Update{Update: &gpb.Notification{Timestamp: 1, Prefix: &gpb.Path{Target: "t"}, Update: []*gpb.Update{upd()}}}}, nil
 	case 'm':
-		return &gpb.SubscribeResponse{Response: &gpb.SubscribeResponse_Update{Update: &gpb.Notification{Timestamp: 1, Prefix: &gpb.Path{Target: "t"}, Update: []*gpb.Update{upd(), upd()}, Delete: []*gpb.Path{{Elem: []*gpb.PathElem{{Name: "z"}}}}}}}, nil
+		second := &gpb.Update{Path: &gpb.Path{Elem: []*gpb.PathElem{{Name: "b"}}}, Val: &gpb.TypedValue{Value: &gpb.TypedValue_IntVal{IntVal: int64(100 + r.pos)}}}
+		return &gpb.SubscribeResponse{Response: &gpb.SubscribeResponse_Update{Update: &gpb.Notification{Timestamp: 1, Prefix: &gpb.Path{Target: "t"}, Update: []*gpb.Update{upd(), second}, Delete: []*gpb.Path{{Elem: []*gpb.PathElem{{Name: "z"}}}}}}}, nil
 	case 'd':
 		return &gpb.SubscribeResponse{Response: &gpb.SubscribeResponse_Update{Update: &gpb.Notification{Timestamp: 1, Prefix: &gpb.Path{Target: "t"}, Delete: []*gpb.Path{{Elem: []*gpb.PathElem{{Name: "a"}}}}}}}, nil
 	case 's':
@@ -310,6 +316,9 @@ func (harness) Run(cfg xplore.Config, ch vrt.Chooser, trace bool) (xplore.Outcom
 	}
 	if d.part == "c" {
 		return runC(d, ch, trace)
+	}
+	if d.part == "d" {
+		return runD(d, ch, trace)
 	}
 	res := vrt.Run(ch, vrt.Options{Reverse: cfg.Reverse, Trace: trace, EarlyTimers: true}, func() {
 		tr := &tracer{}
@@ -502,8 +511,21 @@ func checkTrace(d cfgData, tr *tracer, viol func(class, format string, a ...inte
 func runC(d cfgData, ch vrt.Chooser, trace bool) (xplore.Outcome, *vrt.Result) {
 	var out xplore.Outcome
 	var got []string
+	var full []string
 	q := client.Query{Addrs: []string{"a"}, Target: "t", Type: d.qtype, Queries: []client.Path{{"*"}}, NotificationHandler: func(n client.Notification) error {
 		got = append(got, fmt.Sprintf("%T", n))
+		switch v := n.(type) {
+		case client.Update:
+			full = append(full, fmt.Sprintf("U(%s=%v)", strings.Join(v.Path, "/"), v.Val))
+		case client.Delete:
+			full = append(full, fmt.Sprintf("D(%s)", strings.Join(v.Path, "/")))
+		case client.Sync:
+			full = append(full, "SYNC")
+		case client.Connected:
+			full = append(full, "CONNECTED")
+		default:
+			full = append(full, fmt.Sprintf("%T", n))
+		}
 		return nil
 	}}
 	c := gclient.VerifNewClient(&respStream{resps: d.resps}, q)
@@ -515,6 +537,34 @@ func runC(d cfgData, ch vrt.Chooser, trace bool) (xplore.Outcome, *vrt.Result) {
 	}
 	out.Obs = strings.Join(got, ",") + fmt.Sprintf("|%v", err)
 	out.Nontrivial = len(got) > 1
+	// notifications reach the application in the order received: the exact
+	// sequence expected for this response script
+	want := []string{}
+	stopped := false
+	for i := 0; i < len(d.resps) && !stopped; i++ {
+		if i == 0 {
+			want = append(want, "CONNECTED")
+		}
+		pos := i + 1
+		switch d.resps[i] {
+		case 'u':
+			want = append(want, fmt.Sprintf("U(t/a=%d)", pos))
+		case 'm':
+			want = append(want, fmt.Sprintf("U(t/a=%d)", pos), fmt.Sprintf("U(t/b=%d)", 100+pos), "D(t/z)")
+		case 'd':
+			want = append(want, "D(t/a)")
+		case 's':
+			want = append(want, "SYNC")
+			if d.qtype == client.Once || d.qtype == client.Poll {
+				stopped = true
+			}
+		default: // 'e', 'x': the stream ends with an error
+			stopped = true
+		}
+	}
+	if strings.Join(full, " ") != strings.Join(want, " ") {
+		out.Violations = append(out.Violations, xplore.Violation{Class: "notification-sequence", Msg: fmt.Sprintf("responses %q (%v): the application received [%s], expected [%s]", d.resps, d.qtype, strings.Join(full, " "), strings.Join(want, " "))})
+	}
 	if len(got) > 0 && got[0] != "client.Connected" {
 		out.Violations = append(out.Violations, xplore.Violation{Class: "connected-not-first", Msg: fmt.Sprintf("responses %q: first notification is %s, not Connected (%v)", d.resps, got[0], got)})
 	}
@@ -528,6 +578,79 @@ func runC(d cfgData, ch vrt.Chooser, trace bool) (xplore.Outcome, *vrt.Result) {
 		out.Violations = append(out.Violations, xplore.Violation{Class: "connected-twice", Msg: fmt.Sprintf("responses %q: Connected delivered %d times on one stream", d.resps, n)})
 	}
 	return out, &vrt.Result{}
+}
+
+// runD: a scripted list of updates played by client/fake through the real
+// BaseClient: Connected first, the notifications in the given order up to the
+// first error, Sync after the last one if no error ended the stream.
+func runD(d cfgData, ch vrt.Chooser, trace bool) (xplore.Outcome, *vrt.Result) {
+	var out xplore.Outcome
+	var ups []interface{}
+	want := []string{"CONNECTED"}
+	failed := false
+	for _, k := range d.attempts {
+		switch k {
+		case "u1":
+			ups = append(ups, client.Update{Path: []string{"t", "x"}, Val: 1})
+		case "u2":
+			ups = append(ups, client.Update{Path: []string{"t", "y"}, Val: 2})
+		case "del":
+			ups = append(ups, client.Delete{Path: []string{"t", "x"}})
+		case "err":
+			ups = append(ups, errors.New("stream broke"))
+		}
+		if failed {
+			continue
+		}
+		switch k {
+		case "u1":
+			want = append(want, "U(t/x=1)")
+		case "u2":
+			want = append(want, "U(t/y=2)")
+		case "del":
+			want = append(want, "D(t/x)")
+		case "err":
+			failed = true
+		}
+	}
+	if !failed {
+		want = append(want, "SYNC")
+	}
+	var got []string
+	res := vrt.Run(ch, vrt.Options{Trace: trace}, func() {
+		client.ResetRegisteredImpls()
+		fclient.Mock("fakeimpl", ups)
+		q := client.Query{Addrs: []string{"a"}, Target: "t", Type: client.Once, Queries: []client.Path{{"*"}}, NotificationHandler: func(n client.Notification) error {
+			switch v := n.(type) {
+			case client.Update:
+				got = append(got, fmt.Sprintf("U(%s=%v)", strings.Join(v.Path, "/"), v.Val))
+			case client.Delete:
+				got = append(got, fmt.Sprintf("D(%s)", strings.Join(v.Path, "/")))
+			case client.Sync:
+				got = append(got, "SYNC")
+			case client.Connected:
+				got = append(got, "CONNECTED")
+			default:
+				got = append(got, fmt.Sprintf("%T", n))
+			}
+			return nil
+		}}
+		c := &client.BaseClient{}
+		err := c.Subscribe(vcontext.Background(), q, "fakeimpl")
+		if (err != nil) != failed {
+			out.Violations = append(out.Violations, xplore.Violation{Class: "fake-client-status", Msg: fmt.Sprintf("updates %v: Subscribe returned %v", d.attempts, err)})
+		}
+		c.Close()
+	})
+	out.Obs = strings.Join(got, " ")
+	out.Nontrivial = len(got) > 2
+	if strings.Join(got, " ") != strings.Join(want, " ") {
+		out.Violations = append(out.Violations, xplore.Violation{Class: "notification-sequence", Msg: fmt.Sprintf("fake client updates %v: the application received [%s], expected [%s]", d.attempts, strings.Join(got, " "), strings.Join(want, " "))})
+	}
+	if res.Aborted != "" {
+		out.Violations = append(out.Violations, xplore.Violation{Class: hutil.AbortClass(res.Aborted, res.Panic), Msg: res.Aborted})
+	}
+	return out, res
 }
 
 func main() { xplore.Main(harness{}) }
